@@ -142,3 +142,45 @@ def run(case, ctx):
     return {"nontrivial": interesting, "fails": fails[:5],
             "shape": (case["kind"], "".join("1" if x else "0" for x in cfg["flags"]), case["impute"], min(n // 20, 6)),
             "observed": {"tokens": n, "stream_head": stream[:10], "times_head": info["info_time"][:10]}}
+
+
+def _corpus_body(rng, k):
+    from vmon import corpus
+    from vmon.monitors import LOG
+    from scoda.elements.bar import Bar
+    from scoda.sequences.sequence import Sequence
+    fs = corpus.files()
+    f = fs[k % len(fs)]
+    name, seqs = corpus.pipeline_piece(f)
+    d = max(s.get_sequence_duration() for s in seqs)
+    off = rng.randrange(0, max(1, d - 800)) // 96 * 96
+    seqs = [(s.split([off, 600])[1] if off > 0 and s.get_sequence_duration() > off else s.split([600])[0]) if s.get_sequence_duration() > 0 else s
+            for s in seqs]
+    tb = Sequence.sequences_split_bars(seqs, 0)
+    proc = [Bar.to_sequence([b for b in trk]) for trk in tb]
+    cfg = tc.rand_cfg(rng, i=(k // len(fs)) % 16)
+    cfg.update(tracks=len(proc), pitch=[21, 108], steps=None, values=None, bins=rng.choice([1, 4]))
+    tok = tc.make_tok(cfg)
+    stream = tok.tokenise(proc)[:140]
+    info = tok.get_info(stream)
+    prev = collections.Counter()
+    last = -1
+    for i, t in enumerate(stream):
+        cur = _allnotes(tok.detokenise(stream[:i + 1]))
+        new = cur - prev
+        prev = cur
+        if "pit" in t:
+            LOG.n("c19.note_tokens_checked")
+            ok = sum(new.values()) == 1
+            if ok:
+                (trk, pitch, onset), = new.keys()
+                ok = info["info_time"][i] == onset and info["info_pitch"][i] == pitch and info["info_circle_of_fifths"][i] == orc.cof(pitch)
+            LOG.rec("C19", "corpus", "note_annotation", ok, {"file": name, "k": i, "token": t, "time": info["info_time"][i], "new": list(new)[:2]})
+        LOG.rec("C19", "corpus", "times_non_decreasing", info["info_time"][i] >= last, (name, i)) if info["info_time"][i] < last else None
+        last = info["info_time"][i]
+    return {"file": name, "offset": off, "tokens": len(stream), "cfg": {k2: cfg[k2] for k2 in ("flags", "bins", "tracks")}}, len(stream) > 10
+
+
+def phases(tier):
+    from vmon import corpus
+    return [("corpus", corpus.phase(7, 7 * 32, _corpus_body))]
